@@ -444,14 +444,11 @@ impl Blob {
     /// assert_eq!(shares_len, blob_shares.len());
     /// ```
     pub fn shares_len(&self) -> usize {
-        let Some(without_first_share) = self
-            .data
-            .len()
-            .checked_sub(appconsts::FIRST_SPARSE_SHARE_CONTENT_SIZE)
-        else {
-            return 1;
-        };
-        1 + without_first_share.div_ceil(appconsts::CONTINUATION_SPARSE_SHARE_CONTENT_SIZE)
+        // the first share of a blob with share version 1 also holds the signer
+        shares_needed_for_blob(
+            self.data.len(),
+            self.share_version == appconsts::SHARE_VERSION_ONE,
+        )
     }
 }
 
